@@ -318,10 +318,13 @@ func (t *wTracer) Start(ctx context.Context, name string, o ...trace.SpanStartOp
 }
 
 // ---------------------------------------------------------------- propagator / error handler
-type wProp struct{ h *H }
+type wProp struct {
+	h  *H
+	id string
+}
 
 func (p wProp) Inject(ctx context.Context, c propagation.TextMapCarrier) {
-	p.h.sdkUse("prop", idOf(ctx))
+	p.h.sdkUse("prop", idOf(ctx), p.id)
 }
 func (p wProp) Extract(ctx context.Context, c propagation.TextMapCarrier) context.Context {
 	return ctx
